@@ -190,7 +190,7 @@ func judge(c *common.Ctx, r *Run, o Obs) string {
 	switch {
 	case o.Timeout:
 		c.Hist("outcome:hang")
-		c.Fail("hang:"+r.Class, fmt.Sprintf("`sysl %s` on %s did not terminate within %s", strings.Join(r.Argv, " "), r.Note, deadline), r)
+		c.Fail("hang:"+r.Class, fmt.Sprintf("`sysl %s` on %s did not terminate within %s (nor, run alone, within %s)", strings.Join(r.Argv, " "), r.Note, deadline, 3*deadline), r)
 		return "hang"
 	case o.Crash:
 		c.Hist("outcome:crash")
@@ -226,7 +226,7 @@ func matrix(rng *common.Rng, m *SModel, text string, thorough bool) []*Run {
 			argv[i] = strings.ReplaceAll(a, "out/", fmt.Sprintf("out%d/", k))
 		}
 		k++
-		r := &Run{Class: class, Files: files, Argv: argv, Note: "model " + m.Shape}
+		r := &Run{Class: class, Files: files, Argv: argv, Note: fmt.Sprintf("model %s#%08x", m.Shape, digest(text))}
 		runs = append(runs, r)
 		return r
 	}
@@ -392,8 +392,21 @@ func runAll(runs []*Run, workers int) []done {
 	}
 	close(ch)
 	wg.Wait()
+	// a deadline missed while several subprocesses share a busy machine is not yet a hang: such runs are
+	// repeated alone with three times the deadline, and only a second miss is judged (a real hang misses it again)
+	for i := range out {
+		if out[i].o.Timeout {
+			retried++
+			old := deadline
+			deadline = 3 * old
+			out[i].o = execRun(runs[i])
+			deadline = old
+		}
+	}
 	return out
 }
+
+var retried int
 
 func compiles(text string) (bool, Obs) {
 	r := &Run{Class: "pb", Files: map[string]string{"m.sysl": text}, Argv: []string{"pb", "--mode", "pb", "-o", "out/m.pb", "m.sysl"}}
@@ -423,6 +436,11 @@ func main() {
 			os.Exit(3)
 		}
 		o := execRun(&r)
+		if o.Timeout {
+			deadline *= 3
+			o = execRun(&r)
+			deadline /= 3
+		}
 		cls := judge(c, &r, o)
 		c.Count(r.Class, true)
 		fmt.Printf("replay: sysl %s -> %s (exit %d)\n%s\n", strings.Join(r.Argv, " "), cls, o.RC, headOf(o.Stderr, 1500))
@@ -432,7 +450,7 @@ func main() {
 
 	nShapeRounds, nRandom, nTidy, nImport, nDelta := 1, 12, 2, 1, 8
 	if c.Thorough() {
-		nRandom, nTidy, nImport, nDelta = 160, 20, 4, 60
+		nRandom, nTidy, nImport, nDelta = 70, 10, 3, 40
 	}
 	if c.Search {
 		nRandom *= 3
@@ -504,6 +522,7 @@ func main() {
 	}
 	t0 := time.Now()
 	results := runAll(all, workers)
+	c.Res.Extra["deadline_retries"] = retried
 	c.Res.Extra["subprocess_wall_s"] = int(time.Since(t0).Seconds())
 	byRun := map[*Run]Obs{}
 	var slow time.Duration
@@ -531,6 +550,14 @@ func main() {
 		}
 	}
 	c.Finish()
+}
+
+func digest(s string) uint32 {
+	h := uint32(2166136261)
+	for i := 0; i < len(s); i++ {
+		h = (h ^ uint32(s[i])) * 16777619
+	}
+	return h
 }
 
 func headOf(s string, n int) string {
